@@ -120,7 +120,7 @@ CHECKS = {
         "level": "fault_enumeration", "floor": 10,
         "rule": "per sampled 2-3 replica history (updates, several updates per commit, melds, resolutions): the baseline run records every storage write; then (crash) a snapshot taken before EVERY write is reopened: it must open, equal the reference model of its causally complete closure, and equal "
                 "a replica opened on exactly that closure; (fault) the history is re-run once for EVERY single failing write position and every pair of consecutive positions: a failed commit must leave the staged revisions and the document untouched, the retried commit must produce the same per-step "
-                "state digests and the same reopened final states as the uninterrupted twin; runs whose fault hit a meld must still reopen to the reference state of their storage. Ordering (pack before block, local writer) is checked on every commit of every engine history. "
+                "state digests and the same reopened final states as the uninterrupted twin; runs whose fault hit a meld must still reopen to the reference state of their storage. Ordering (pack before block, local writer) is checked on every commit of every engine history, where 6% of the commits also suffer one injected write failure (staging and document must survive, heads must not move). "
                 "non-trivial = faults hit both a pack write and a block write of a commit. distinct = write pattern of the history.",
         "assumptions": ASSUME_COMMON + ["each item write is atomic (fully present or absent), as the property assumes; torn files are C10 damage", "meld copies blocks before packs on the unchanged tree; the property covers that by 'blocks whose dependencies did not arrive are ignored', which the crash monitor decides"],
         "jobs": [mode("faults", "c09", (160, 6000)), engine("ordering", "general", "any", (320, 12000))],
@@ -129,7 +129,7 @@ CHECKS = {
         "level": "fault_enumeration", "floor": 10,
         "rule": "per finished history, for EVERY stored item: delete, empty, truncate to len-1 and two sampled lengths, 8 sampled single-bit flips (thorough: every byte position for items <= 4 KiB); 6 random deletion subsets; 18 junk injections (bad names, out-of-range indices, wrong hashes, valid hashes of other bytes); "
                 "by two routes (open fresh; refresh on a replica that had loaded an intact prefix). The call must return an error, or the state must equal the reference model of the intact causally complete subset and a replica opened on the intact subset, never panic, and every value returned must hash to the digest in its revision id. "
-                "live corruption: bits of an already indexed pack are flipped behind the adapter with MELDA_DATA_CACHE_CAP=1; get_value must be Err or exactly the recorded value. non-trivial = damage hit an item other blocks depend on.",
+                "live corruption: bits of an already indexed pack are flipped behind the adapter with MELDA_DATA_CACHE_CAP=1; get_value must be Err or exactly the recorded value. damage between refreshes: a pack is damaged in place after it was indexed and before a held-back block that names it becomes deliverable; that block must never be applied. non-trivial = damage hit an item other blocks depend on.",
         "assumptions": ASSUME_COMMON + ["no attempt is made to forge an item whose damaged bytes still hash to its name"],
         "jobs": [mode("damage", "c10", (160, 4000), args={"profile": "conflict"}), mode("damage-dense", "c10", (0, 400), args={"profile": "conflict", "dense": 1}, tier="thorough")],
     },
@@ -172,14 +172,15 @@ CHECKS = {
     "C16": {
         "level": "exploration", "floor": 50,
         "rule": "unit: apply_diff_patch(a, make_diff_patch(a,b)) == b and patch empty iff a == b for ALL ordered pairs of sequences with repetition over 3 letters up to length 5 (quick) / 4 letters up to 6 (thorough), plus random arrays of <=200 elements with block moves, reversals, repeats. "
-                "system: chains of 60-120 successive versions of one flattened array (remove first repeatedly, empty/refill, reverse, rotate, identical consecutive edit scripts) with commits, snapshots and reopen, under MELDA_ARRAYDESCRIPTORS_CACHE_CAP in {1,2,3,16}: read() == last submitted and, "
-                "queried in random order, verif_array_order(rev) == the array submitted when rev was created, for every revision ever created. non-trivial (system) = chain length >=20 with >=1 reopen." + DISTINCT,
+                "system: chains of 60-120 successive versions of two flattened arrays (remove first repeatedly, empty/refill, reverse, rotate, identical consecutive edit scripts) with commits, snapshots, reopen and peer branches (a second replica edits concurrently and is melded back, so that the chain continues "
+                "while the arrays have two live leaves), under MELDA_ARRAYDESCRIPTORS_CACHE_CAP in {1,2,3,16}: read() == last submitted (when no array is in conflict) and, queried in random order, verif_array_order(rev) == the array submitted when rev was created, for every revision ever created on either replica. "
+                "non-trivial (system) = chain length >=20 with >=1 reopen." + DISTINCT,
         "assumptions": ASSUME_COMMON,
         "jobs": [mode("pairs", "c16unit", (364, 5461)), mode("chains", "c16chain", (320, 16000))],
     },
     "C17": {
         "level": "exploration", "floor": 20, "post": "post_c17",
-        "rule": "contract: random sequences of write / whole read / non-empty in-range ranged read / list-by-suffix (\"\", .delta, .pack, other, partial suffixes) with empty, 1-byte, 5 kB incompressible and compressible values against memory, directory, SQLite file and SQLite in-memory, each plain / Deflate / Brotli, "
+        "rule": "contract: random sequences of write / whole read / non-empty in-range ranged read / list-by-suffix (\"\", .delta, .pack, other, partial suffixes) with empty, 1-byte, 5 kB and 40-270 kB incompressible and compressible values (sweeps of 200-800 byte windows across the large ones), writes through a second handle on the same directory / database, against memory, directory, SQLite file and SQLite in-memory, each plain / Deflate / Brotli, "
                 "compared with a first-write-wins map; persistent backends are dropped and reopened mid-sequence and at the end. replica: the same op script (engine 'general') runs over all 12 backends; the per-op state/graph digest sequence must equal the memory baseline, including reopen on a new adapter object. "
                 "non-trivial = >=5 keys (contract) / script with >=2 commits compared on all backends." + DISTINCT,
         "assumptions": ASSUME_COMMON + ["keys are item-like names: ASCII, >= 2 characters, no '/', not containing '.flate'/'.brotli'"],
